@@ -76,7 +76,7 @@ impl Property for C10 {
     const ID: &'static str = "C10";
 
     fn rule() -> String {
-        "Transactions as in C03 (1..6 inputs, 0..6+ outputs, boundary-valued fields; 70 % parsed fresh, 30 % reached through the mutation API from a variant differing in one field after a sighash call of any of the twelve flags had filled the object's caches), every input index, the six legacy flags 0x01,0x02,0x03,0x81,0x82,0x83, subscripts from the script grammar with OP_CODESEPARATOR sprinkled at every nesting depth (first, last, repeated, inside IF/ELSE branches) and 0xab bytes planted inside push payloads. Oracle: the original SignatureHash serialisation computed from the wire fields (refimpl::sighash::legacy_preimage); the call is made twice on the same object and must repeat. Non-trivial = input index > 0, a flag other than ALL, or a code separator inside a conditional; distinct by hash of the serialised case.".into()
+        "Transactions as in C03 (1..6 inputs, 0..6+ outputs, boundary-valued fields; 70 % parsed fresh, 30 % reached through the mutation API from a variant differing in one field, or lacking one to three inputs / outputs that the list-growing calls then supply, after a sighash call of any of the twelve flags had filled the object's caches), every input index, the six legacy flags 0x01,0x02,0x03,0x81,0x82,0x83, subscripts from the script grammar with OP_CODESEPARATOR sprinkled at every nesting depth (first, last, repeated, inside IF/ELSE branches) and 0xab bytes planted inside push payloads. Oracle: the original SignatureHash serialisation computed from the wire fields (refimpl::sighash::legacy_preimage); the call is made twice on the same object and must repeat. Non-trivial = input index > 0, a flag other than ALL, or a code separator inside a conditional; distinct by hash of the serialised case.".into()
     }
 
     fn assumptions() -> Vec<String> {
@@ -88,7 +88,7 @@ impl Property for C10 {
     }
 
     fn strategy(_tier: Tier) -> BoxedStrategy<Case> {
-        (gtx_sig(), any::<u16>(), prop::sample::select(LEGACY_FLAGS.to_vec()), subscript(3), prop_oneof![1 => Just(0u32), 3 => any::<u32>()], prop::option::weighted(0.3, (0u8..12, 0u8..7, any::<u16>()).prop_map(|(warm_flag, field, which)| History { warm_flag, field, which })))
+        (gtx_sig(), any::<u16>(), prop::sample::select(LEGACY_FLAGS.to_vec()), subscript(3), prop_oneof![1 => Just(0u32), 3 => any::<u32>()], prop::option::weighted(0.3, (0u8..12, 0u8..15, any::<u16>()).prop_map(|(warm_flag, field, which)| History { warm_flag, field, which })))
             .prop_map(|(tx, idx, flag, script, sprinkle, history)| Case { tx, idx, flag, script, sprinkle, history })
             .boxed()
     }
@@ -111,6 +111,7 @@ impl Property for C10 {
             Some(h) => match reach_through_history(&r, h, idx, &script, 0x0102030405060708, &all_flags)? {
                 Some(t) => {
                     o.nt("reached-through-history");
+                    o.label_if(h.field % 15 >= 7, "history-supplied-missing-inputs-or-outputs");
                     o.label_if((h.warm_flag as usize) % 12 < 6, "warmed-by-legacy-sighash");
                     t
                 }
